@@ -390,7 +390,8 @@ def oracle_c11(script, ig, mg):
                 end = cid + hl
                 # filled from a `st` right after this call (a batch may rotate in the middle)
                 state_after[cid] = ("pending", i) if len(recs) == 1 else None
-            if not heads and recs:
+            if recs and (not heads or off >= end):
+                # no rotation, or (batch) the last record was journalled after the rotation
                 end = off + size
             if recs and heads and len(recs) == 1:
                 # single record then rotation: the record ends where the new file starts
@@ -661,7 +662,7 @@ PROPS = {
     ),
     "C11": dict(
         theorems=["c11_name_roundtrip", "c11_name_length", "c11_name_injective", "c11_name_order",
-                  "c11_segment_is_record_place", "c11_rotation", "c11_new_chunk_abuts"],
+                  "c11_segment_is_record_place", "c11_rotation", "c11_new_chunk_abuts"] + ['c11_journal_spec', 'c11_journal_fresh', 'c11_journal_call', 'c11_call_never_exists', 'c11_journal_flush', 'c11_journal_worker', 'c11_journal_workerIdle', 'c11_journal_drain', 'c11_journal_invariant', 'c11_segment_holds_record', 'c11_quiescent_files_exact'],
         gen=scripts_c11, project=proj_c11, oracle=oracle_c11,
         nontrivial=lambda s: len(s) > 5,
         explanation="journal layout invariant",
@@ -927,7 +928,7 @@ class Trace:
                         and off < self.end and (off + size) != self.end + size)
                 if heads:
                     self.end = int(heads[-1][3]) + int(heads[-1][4])
-                elif self.end is None or off + size > self.end:
+                if self.end is None or off + size > self.end:
                     self.end = off + size
                 self.on_write(cmd, off, size, g)
             if w == "flush" and line == "ret ok":
